@@ -1,4 +1,5 @@
 import gfapy
+from copy import deepcopy
 
 class Multiline:
   """
@@ -132,7 +133,8 @@ class Multiline:
     saved = self._save_tags()
     try:
       for of in gfa_line.tagnames:
-        self.add(of, gfa_line.get(of), gfa_line.get_datatype(of))
+        # (a copy: the merged line keeps its own values)
+        self.add(of, deepcopy(gfa_line.get(of)), gfa_line.get_datatype(of))
     except:
       # all tags of the line are merged or none
       self._restore_tags(saved)
